@@ -13,6 +13,7 @@ pub enum Which {
 
 pub fn universe(check: &Check) -> Vec<Vec<Node>> {
     let mut u = ds1();
+    u.extend(ds_charset());
     u.extend(ds_nested(2));
     if check.thorough() {
         u.extend(ds2());
@@ -94,7 +95,8 @@ impl Write for CountingWrite {
 /// Run one data set through every TS4 x write mode; C01 compares read-back, C04 parses the output.
 pub fn run_api_case(which: Which, l: &mut Local, dict: &Dict, idx: usize, nodes: &[Node]) {
     let desc = describe(nodes);
-    let expected = to_ref(nodes, 0);
+    let expected = to_ref_canon(nodes, 0);
+    let expected_wire = to_ref(nodes, 0);
     let obj = to_obj(nodes);
     if let Err(m) = compare(&expected, &canon(&obj), VrMode::Explicit, dict, false) {
         l.check.machinery_error(&format!("harness: canon(to_obj) != to_ref for ds {idx}: {m}"));
@@ -125,7 +127,7 @@ pub fn run_api_case(which: Which, l: &mut Local, dict: &Dict, idx: usize, nodes:
             };
             match which {
                 Which::C01 => check_readback(l, &case_id, &base, dict, ti, &bytes, &expected, nodes),
-                Which::C04 => check_wire(l, &case_id, &base, dict, ti, &bytes, &expected, false, nodes),
+                Which::C04 => check_wire(l, &case_id, &base, dict, ti, &bytes, &expected_wire, false, nodes),
             }
         }
     }
@@ -205,8 +207,9 @@ pub fn run_recorded_case(which: Which, l: &mut Local, dict: &Dict, idx: usize, n
                 l.outcome("skipped-implicit-private-sq-defined-length");
                 continue;
             }
-            let expected = to_ref(nodes, mask);
-            let stream = vx_ref::ds::encode_items(ref_ts(ti), &expected);
+            let expected = to_ref_canon(nodes, mask);
+            let expected_wire = to_ref(nodes, mask);
+            let stream = vx_ref::ds::encode_items(ref_ts(ti), &expected_wire);
             for mode in [WriteMode::NoChange, WriteMode::SetUndefined, WriteMode::Default] {
                 let case_id = format!("rec/ds{idx}/mask{mask}/ts{ti}/{mode:?}");
                 if !l.want(&case_id) {
@@ -246,7 +249,7 @@ pub fn run_recorded_case(which: Which, l: &mut Local, dict: &Dict, idx: usize, n
                     Which::C01 => check_readback(l, &case_id, &base, dict, ti, &bytes, &expected, nodes),
                     Which::C04 => {
                         // validity only: which containers keep a defined length is C02's subject
-                        check_wire(l, &case_id, &base, dict, ti, &bytes, &expected, false, nodes)
+                        check_wire(l, &case_id, &base, dict, ti, &bytes, &expected_wire, false, nodes)
                     }
                 }
             }
@@ -258,7 +261,8 @@ pub fn run_recorded_case(which: Which, l: &mut Local, dict: &Dict, idx: usize, n
 pub fn run_file_case(which: Which, l: &mut Local, dict: &Dict, idx: usize, nodes: &[Node]) {
     use dicom_object::{FileMetaTableBuilder, OpenFileOptions};
     let desc = describe(nodes);
-    let expected = to_ref(nodes, 0);
+    let expected = to_ref_canon(nodes, 0);
+    let expected_wire = to_ref(nodes, 0);
     for (ti, uid) in TS4.iter().enumerate() {
         let case_id = format!("file/ds{idx}/ts{ti}");
         if !l.want(&case_id) {
@@ -344,7 +348,7 @@ pub fn run_file_case(which: Which, l: &mut Local, dict: &Dict, idx: usize, nodes
                         l.fail(&case_id, class_with(&base, json!({"stage": "parse-meta", "kind": "mismatch", "what": "transfer syntax"})), detail(head.ts_uid.clone()));
                         continue;
                     }
-                    check_wire(l, &case_id, &base, dict, ti, &bytes[head.dataset_offset..], &expected, false, nodes);
+                    check_wire(l, &case_id, &base, dict, ti, &bytes[head.dataset_offset..], &expected_wire, false, nodes);
                 }
             },
         }
